@@ -392,6 +392,15 @@ def run(ck, repo: Repo, tier: str):
                 ok, why = False, "the action passed to env.step is neither the seeded space sample nor the clipped sampler's result"
                 if isinstance(v, ast.Call):
                     t = res.resolve(v.func, mi, cfg, d.node)
+                    if t is None or not getattr(t, "qual", None):
+                        # an unresolved producer is evidence only when it is one of the routine's own parameters (the raw policy network)
+                        root_ = v.func
+                        while isinstance(root_, ast.Attribute):
+                            root_ = root_.value
+                        is_param = isinstance(root_, ast.Name) and root_.id in param_names(L.fn) and all(x.kind == "param" for x in cfg.defs_of(d.node, root_.id))
+                        if not is_param:
+                            raise AnalysisError(f"{lq}: the producer `{short(v.func, 40)}` of the action passed to env.step cannot be resolved (unrecognised form)")
+                        why = f"the action passed to env.step is the output of `{short(v.func, 30)}` itself: it does not go through the clipped sampler"
                     if t is not None and t.qual == SA:
                         fac = getattr(t, "factory", None)
                         if fac is not None and fac[0] == "rl_blox.algorithm.ddpg.make_sample_actions":
@@ -580,14 +589,36 @@ def run(ck, repo: Repo, tier: str):
           ck.ob("R5-planning-chain", q, "plan-shift-and-padding", oki and okp, f"initial plan {sorted(init_forms)}; prev_plan' = shifted result padded with avg_act: {okp}", "" if oki and okp else "initial plan and padding must be the in-box mid-point avg_act, the plan the optimiser's result", loc(mi, fn))
         q = "rl_blox.algorithm.pets._pets_optimize"
         fn = repo.func(q)
-        rets = [n for n in ast.walk(fn) if isinstance(n, ast.Return)]
-        ok = len(rets) == 1 and ast.unparse(rets[0].value) == "mean"
-        cfg = nf.cfg_of(fn)
-        okm = False
-        for n in cfg.nodes:
-            if n.kind == "stmt" and isinstance(n.ast, ast.Assign) and isinstance(n.ast.value, ast.Call) and dotted(n.ast.value.func) == "_pets_opt_iter" and isinstance(n.ast.targets[0], ast.Tuple):
-                okm = dotted(n.ast.targets[0].elts[0]) == "mean"
-        ck.ob("R5-planning-chain", q, "returns-cem-mean", ok and okm, f"return {ast.unparse(rets[0].value) if rets else None}", "" if ok and okm else "the optimiser must return the CEM mean (convex combination of in-box elites)", loc(fn._module, fn))
+        # what the optimiser returns, evaluated along the paths of its body (iteration helper inlined): after at least one iteration it
+        # must be component 0 of `config.update_fn(...)` - the mean of (cem_update's) (mean, var) - whatever the locals are called
+        from ..sympath import enumerate_paths as _ep, PathEval as _PE
+        nfo = NF(repo, inline_depth=2)
+        cfg = nfo.cfg_of(fn)
+        rets = [n for n in cfg.nodes if n.kind == "stmt" and isinstance(n.ast, ast.Return)]
+        ck.need(len(rets) == 1 and rets[0].ast.value is not None, f"{q}: expected one return of a value")
+        envo = _env(fn)
+        kinds = set()
+        shown = ""
+        for pth in _ep(cfg, cfg.entry, {rets[0].id}):
+            if not any(cfg.nodes[n_].kind == "for" and lab_ is True for n_, lab_ in pth):
+                continue      # zero iterations: the initial mean is returned
+            v = _PE(nfo, cfg, fn._module, q, envo).run(pth[:-1]).ev(rets[0].ast.value)
+            a_ = v.single_atom() or ""
+            m_ = nfo.meta.get(a_, {})
+            base = m_.get("args", [None])[0] if m_.get("fn") == "proj" and m_.get("args") else None
+            bm = nfo.meta.get(base.single_atom() or "", {}) if base is not None else {}
+            shown = v.canon()[:90]
+            if base is not None and bm.get("fn", "").endswith("update_fn") and a_.endswith("]"):
+                kinds.add("mean" if a_.endswith("[0]") else "other-component")
+            elif "φ(" in v.canon() or not same_ingredients(v, nfo.poly(parse_expr("config.update_fn(config.sample_fn(mean, config.init_var, key), config.reward_model(obs), mean, config.init_var)[0]"), Scope(None, fn._module, envo, q), None),
+                                                            ("split", "dynamics_model", "randint", "n_particles", "n_ensemble", "n_samples", "plan_horizon", "where", "argmax", "inf", "sum", "mean", "broadcast_to", "shape", "newaxis", "jax", "numpy", "n_opt_iter", "action_space_shape", "base_predict", "base_distribution", "sample", "reshape", "vmap", "concatenate", "squeeze")):
+                raise AnalysisError(f"{q}: returns `{shown}` (unrecognised form)")
+            else:
+                kinds.add("not-the-update-result")
+        if not kinds:
+            raise AnalysisError(f"{q}: no path with an optimiser iteration reaches the return (unrecognised form)")
+        okm = kinds == {"mean"}
+        ck.ob("R5-planning-chain", q, "returns-cem-mean", okm, f"return {shown}", "" if okm else "the optimiser must return the CEM mean (convex combination of in-box elites)", loc(fn._module, fn))
         q = "rl_blox.algorithm.pets._pets_opt_iter"
         fn = repo.func(q)
         txt = "\n".join(ast.unparse(s) for s in fn.body)
